@@ -114,6 +114,10 @@ fn run_case_inner(tree: &Snap, invocations: &[Vec<String>]) -> Vec<String> {
             .filter_map(|l| { let l = std::str::from_utf8(l).ok()?; let l = l.strip_prefix("Patch ")?; l.strip_suffix(" FAILED").map(|x| x.to_string()) })
             .next().map(|n| hex(n.as_bytes())).unwrap_or("-".to_string());
         let exit = match r { Ok(Ok(true)) => 0, Ok(Ok(false)) => 1, Ok(Err(_)) => 1, Err(_) => 101 };
+        // which file patches the parallel driver queued for which worker (hook): `thread:patch index:old:new`
+        let queues: Vec<String> = crate::verif::queues_report().iter().enumerate().flat_map(|(t, q)| q.iter().map(move |(i, o, n)| {
+            let h = |x: &Option<PathBuf>| match x { Some(p) => hex(p.as_os_str().as_bytes()), None => "~".to_string() };
+            format!("{}:{}:{}:{}", t, i, h(o), h(n)) }).collect::<Vec<_>>()).collect();
         let (after, meta_after) = snapshot(&base);
         let newino: Vec<String> = after.iter().filter(|(_, e)| matches!(e, Entry::File(..)))
             .filter(|(p, _)| match (meta_before.get(*p), meta_after.get(*p)) { (Some(a), Some(b)) => a.ino != b.ino || !matches!(before.get(*p), Some(Entry::File(..))), _ => true })
@@ -134,9 +138,10 @@ fn run_case_inner(tree: &Snap, invocations: &[Vec<String>]) -> Vec<String> {
         let outside_ok = out_names == vec!["outside".to_string(), format!("twin{}", inv_no), "w".to_string()]
             && std::fs::read(dir.path().join("outside")).map(|c| c == b"sentinel\n").unwrap_or(false);
         std::fs::remove_dir_all(&twin).unwrap();
-        results.push(format!("exit={};failed={};tree={};newino={};same={};twin={};outside={}", exit, failed_patch, render_tree(&after),
+        results.push(format!("exit={};failed={};tree={};newino={};same={};twin={};outside={};queues={}", exit, failed_patch, render_tree(&after),
             if newino.is_empty() { "-".to_string() } else { newino.join(",") }, same as u8,
-            if twin_changed.is_empty() { "ok".to_string() } else { twin_changed.join(",") }, if outside_ok { "ok" } else { "changed" }));
+            if twin_changed.is_empty() { "ok".to_string() } else { twin_changed.join(",") }, if outside_ok { "ok" } else { "changed" },
+            if queues.is_empty() { "-".to_string() } else { queues.join(",") }));
     }
     results
 }
@@ -191,6 +196,10 @@ pub fn steal_stdout() -> std::fs::File {
 
 pub struct Workspace { pub tree: Snap, pub npatches: usize, pub names: Vec<String> }
 
+/// chance (percent) that a generated series lists one of its patches twice — set by the `push` engine only, which then
+/// pushes such a workspace with --backup never
+pub static DUP_ENTRY_PCT: std::sync::atomic::AtomicU32 = std::sync::atomic::AtomicU32::new(0);
+
 pub fn gen_workspace(rng: &mut Rng, rich: bool, max_patches: usize, allow_fail: bool) -> Workspace { gen_workspace2(rng, rich, max_patches, allow_fail, 45, 40) }
 
 /// `fail_pct`: chance that the series has a failing patch; `more_pct`: chance for each later patch to fail as well
@@ -234,6 +243,17 @@ pub fn gen_workspace2(rng: &mut Rng, rich: bool, max_patches: usize, allow_fail:
         let opt = if !opt.is_empty() && rng.chance(4) { format!("{}{}", rng.pick(&["\u{a0}", "\u{3000}", "\u{2003}", "\u{85}"]), &opt[1..]) } else { opt };
         series.extend_from_slice(format!("{}{}{}\n", if hash_name { " " } else { "" }, name, opt).as_bytes());
         names.push(name);
+    }
+    // (rarely) the series lists a patch a second time (again, or to take it back with -R): a goal given by name means
+    // the FIRST line with that name; quilt's backup directory .pc/<patch> cannot tell the two apart, so such
+    // workspaces are pushed with --backup never (see `run`)
+    let mut np = np;
+    if rng.chance(DUP_ENTRY_PCT.load(std::sync::atomic::Ordering::Relaxed)) {
+        let again = names[rng.below(names.len())].clone();
+        let hash = again.starts_with('#');
+        series.extend_from_slice(format!("{}{}{}\n", if hash { " " } else { "" }, again, if rng.chance(60) { " -R" } else { "" }).as_bytes());
+        names.push(again);
+        np += 1;
     }
     tree.insert(b"series".to_vec(), Entry::File(0o644, series));
     if !tree.contains_key(&b"patches".to_vec()) { tree.insert(b"patches".to_vec(), Entry::Dir); }
@@ -295,6 +315,8 @@ pub fn gen_goal(rng: &mut Rng, ws: &Workspace) -> Vec<String> {
         return match rng.below(4) { 0 => vec!["-a".to_string(), n], 1 => vec![n, "-a".to_string()], 2 => vec![n, rng.below(3).to_string()],
             _ => vec![ws.names[rng.below(ws.names.len())].clone(), "-a".to_string()] };
     }
+    // a series that lists a patch twice: often the goal is that very name (it means the first line with the name)
+    { let mut n = ws.names.clone(); n.sort(); if let Some(w) = n.windows(2).find(|w| w[0] == w[1]) { if rng.chance(40) { return vec![w[0].clone()]; } } }
     match rng.below(10) {
         0..=4 => vec!["-a".to_string()],
         5 => vec![],
@@ -350,9 +372,13 @@ pub fn run<W: Write>(out: &mut W, seed: u64, n: usize, opts: &HashMap<String, St
     let (dry, evil, state, unsafe_) = (pct("dry", 8), pct("evil", 0), pct("state", 0), pct("unsafe", 0));
     let max_patches: usize = opts.get("patches").and_then(|s| s.parse().ok()).unwrap_or(4);
     crate::wsgen::HUGE_PCT.store(opts.get("huge").and_then(|s| s.parse().ok()).unwrap_or(0), std::sync::atomic::Ordering::Relaxed);
-    crate::wsgen::BIG_FILE_PCT.store(opts.get("bigfile").and_then(|s| s.parse().ok()).unwrap_or(3), std::sync::atomic::Ordering::Relaxed);
+    // (files of several hundred lines only in single-threaded jobs unless asked for: the model of the parallel driver
+    // re-runs a worker's save code from its start for every operation — quadratic, minutes for one such workspace)
+    let parallel_job = threads.iter().any(|t| *t > 1);
+    crate::wsgen::BIG_FILE_PCT.store(opts.get("bigfile").and_then(|s| s.parse().ok()).unwrap_or(if parallel_job { 0 } else { 3 }), std::sync::atomic::Ordering::Relaxed);
     crate::wsgen::LARGE_OF_20.store(opts.get("large").and_then(|s| s.parse().ok()).unwrap_or(1), std::sync::atomic::Ordering::Relaxed);
     let mut rng = Rng::new(seed ^ 0x9u64);
+    DUP_ENTRY_PCT.store(pct("dupentry", 4), std::sync::atomic::Ordering::Relaxed);
     for id in 0..n {
         let rich = rng.chance(30);
         let mut ws = gen_workspace(&mut rng, rich, max_patches, true);
@@ -416,6 +442,12 @@ pub fn run<W: Write>(out: &mut W, seed: u64, n: usize, opts: &HashMap<String, St
         for _ in 0..ninv {
             let mut a = gen_options(&mut rng, &threads);
             if let Some(pd) = pdir { a.push(if rng.chance(50) { "-p".into() } else { "--patch-directory".into() }); a.push(pd.to_string()); }
+            // a series that lists a patch twice: no backups (both entries would share .pc/<patch>)
+            let dup = { let mut n = ws.names.clone(); n.sort(); n.windows(2).any(|w| w[0] == w[1]) };
+            if dup {
+                while let Some(i) = a.iter().position(|x| x == "--backup" || x == "-b") { a.remove(i); if i < a.len() { a.remove(i); } }
+                a.push("--backup".into()); a.push("never".into());
+            }
             if rng.chance(dry) { a.push("--dry-run".into()); }
             let mut g = gen_goal(&mut rng, &ws);
             if state > 0 && rng.chance(15) { g = vec![(*rng.pick(&["nosuch.patch", "p0.patchx", "18446744073709551615", "99"])).to_string()]; }
@@ -481,7 +513,8 @@ fn run_fault_case2(tree: &Snap, inv: &[String], k: Option<usize>, limit: u64) ->
             let name = rel.file_name().map(|n| n.to_string_lossy().into_owned()).unwrap_or_default();
             // the message must name the file: its name, or for directories the path
             // (the working directory itself has no name to print: then the message must at least say which file was being saved)
-            let ok = if name.is_empty() { msg.contains("Failed to save") } else { msg.contains(&name) };
+            // (messages print paths with `{:?}`: a control character in the name appears escaped, `v\u{b}t`)
+            let ok = if name.is_empty() { msg.contains("Failed to save") } else { msg.contains(&name) || msg.contains(format!("{:?}", name).trim_matches('"')) };
             (format!("{}:{}", kind, hex(rel.as_os_str().as_bytes())), ok as u8)
         }
     };
@@ -489,6 +522,7 @@ fn run_fault_case2(tree: &Snap, inv: &[String], k: Option<usize>, limit: u64) ->
 }
 
 pub fn run_faults<W: Write>(out: &mut W, seed: u64, n: usize, opts: &HashMap<String, String>) {
+    crate::wsgen::BIG_FILE_PCT.store(opts.get("bigfile").and_then(|s| s.parse().ok()).unwrap_or(3), std::sync::atomic::Ordering::Relaxed);
     std::fs::create_dir_all("/verif/build/tmp").unwrap();
     let per_case: usize = opts.get("perws").and_then(|s| s.parse().ok()).unwrap_or(6);
     let threads: Vec<usize> = opts.get("threads").map(|s| s.split(',').map(|x| x.parse().unwrap()).collect()).unwrap_or(vec![1]);
@@ -550,6 +584,7 @@ fn run_scheduled(tree: &Snap, inv: &[String], script: Option<Vec<String>>) -> (S
 }
 
 pub fn run_sched<W: Write>(out: &mut W, seed: u64, n: usize, opts: &HashMap<String, String>) {
+    crate::wsgen::BIG_FILE_PCT.store(opts.get("bigfile").and_then(|s| s.parse().ok()).unwrap_or(0), std::sync::atomic::Ordering::Relaxed);
     std::fs::create_dir_all("/verif/build/tmp").unwrap();
     let per_ws: usize = opts.get("perws").and_then(|s| s.parse().ok()).unwrap_or(3);
     let mut rng = Rng::new(seed ^ 0x5c4ed);
